@@ -30,9 +30,11 @@ Definition obs_all (u : list nodeT) (T : nat) (froms : list nat) (s : store) :=
        (seq 0 (length u))).
 Definition vm_case (u : list nodeT) (badl : list nat) (T : nat) (froms : list nat) (cfg : config) (h : list (op * orders)) :=
   let N := length u in
-  let sr := fold_left (fun acc oo =>
-              let r := step N (u_mf u) (u_succs u) (u_subj u) (u_sk u) (fun k => mem k badl) true true true true true cfg (fst acc) oo in
-              (fst r, snd acc ++ [snd r])) h (store_empty, []) in
+  let sr3 := fold_left (fun acc oo =>
+              let c := fst (fst acc) in let s := snd (fst acc) in
+              let r := step N (u_mf u) (u_succs u) (u_subj u) (u_sk u) (fun k => mem k badl) true true true true true c s oo in
+              (next_cfg c (fst oo), fst r, snd acc ++ [snd r])) h (cfg, store_empty, []) in
+  let sr := (snd (fst sr3), snd sr3) in
   let s := fst sr in
   (snd sr, obs_all u T froms s, obs_all u T froms (reopen N (u_mf u) (u_succs u) s), disk_valid s).
 """
@@ -152,6 +154,8 @@ def _vm_goal(cid, case, out):
             t = "OReopen"
         elif op[0] == "I":
             t = "OInject %s" % a
+        elif op[0] == "A":
+            t = "OSetAutoGC %s" % ("true" if a == "1" else "false")
         else:
             return None
         if r not in rmap:
